@@ -118,7 +118,10 @@ MeshD1 == {Un(MeshTet, Sph), Cu(Sph, MeshCube), Cu(MeshCube, Sph), An(MeshBi, Sp
 CirNeg == Cir(V2(0, 0), A2(4, "t", -1))
 NegD1 == {CirNeg, Un(CirNeg, Par(V2(0, 0), V2(8, 0), V2(0, 8))), Cu(Par(V2(-8, -6), V2(4, -2), V2(-4, 6)), CirNeg), Pr(CirNeg, [k |-> "interval", v |-> "u", lo |-> A0(-4), hi |-> A0(6)]),
           Tr(CirNeg, V2(4, -2))}
-Exh == Prims2 \cup Ints \cup {IntBig} \cup {Sph, SphT} \cup Polys \cup Meshes \cup PolyD1 \cup MeshD1 \cup RotQ1 \cup RotQ2 \cup Rot3D1 \cup NegD1 \cup {x \in Depth1 : x.k \notin {"union", "cut", "and"} \/ x.l # x.r}
+\* cuts DECLARED contained whose inner operand touches the outer boundary along segments (the library's own test case is of this form)
+CutTouch == {[Cu(Par(V2(0, 0), V2(8, 0), V2(0, 8)), Par(V2(0, 0), V2(4, 0), V2(0, 4))) EXCEPT !.k = "cut"] @@ [contained |-> TRUE],
+             [Cu(Par(V2(-8, -8), V2(8, -8), V2(-8, 8)), Tri(V2(-8, -8), V2(0, -8), V2(-8, 0))) EXCEPT !.k = "cut"] @@ [contained |-> TRUE]}
+Exh == CutTouch \cup Prims2 \cup Ints \cup {IntBig} \cup {Sph, SphT} \cup Polys \cup Meshes \cup PolyD1 \cup MeshD1 \cup RotQ1 \cup RotQ2 \cup Rot3D1 \cup NegD1 \cup {x \in Depth1 : x.k \notin {"union", "cut", "and"} \/ x.l # x.r}
 
 \* ---- random growth
 R(S) == RandomElement(S)
